@@ -795,6 +795,10 @@ def _parse_auto_apply_args(argspec, commandline_args, namespace, arg_mode="auto"
                         "If you really want to use %r as the argument to %s, "
                         "then use %s=%s."
                         % (arg, value, arg, arg, value))
+            # Keep the options in command-line order (the last occurrence of a
+            # repeated option counts, also for its position), as **kwargs of
+            # the equivalent Python call would be.
+            got_keyword_args.pop(argname, None)
             got_keyword_args[argname] = make_expr(value)
         else:
             got_pos_args.append(make_expr(arg))
@@ -866,7 +870,7 @@ def _parse_auto_apply_args(argspec, commandline_args, namespace, arg_mode="auto"
                 % (expected, ", ".join(argspec.args),
                    len(got_pos_args), " ".join(map(str, got_pos_args))))
 
-    for argname, expr in sorted(got_keyword_args.items()):
+    for argname, expr in got_keyword_args.items():
         try:
             parsed_kwargs[argname] = expr.value
         except Exception as e:
